@@ -5,7 +5,7 @@
     *other* unwrap/expect/indexing site fires is sampled by the correspondence run, not proved. *)
 From Selene Require Import Scope.Interp Scope.Balanced Filter.Machine Filter.Spec Filter.Correct7
   Std.FindGlobal Std.FindGlobalSpec Std.TryInstead Std.TryInsteadSpec Pipeline.Location Pipeline.LocationSpec
-  Generated.LintTable Generated.LintCodes.
+  Generated.LintTable Generated.LintCodes Lints.Escape.
 
 (** the `replace` patterns of deprecated entries are expanded without ever indexing out of bounds,
     whatever the library declares and however many arguments the call has *)
@@ -61,3 +61,11 @@ Proof.
   destruct (Hall st) as (o & Ho & _). exists o. exact Ho.
 Qed.
 Print Assumptions C11_styles_total.
+
+(** the hand-computed ranges of bad_string_escape (model: Lints/Escape.v, compared with the real lint by
+    C04's run): non-empty and inside the string literal *)
+Theorem C11_escape_ranges_in_bounds : forall q rb l off skip,
+  scan_fits q rb l skip = true ->
+  forall s e, In (s, e) (scan q rb l off skip) -> (off <= s)%nat /\ (s < e)%nat /\ (e <= off + List.length l)%nat.
+Proof. exact scan_in_bounds. Qed.
+Print Assumptions C11_escape_ranges_in_bounds.
